@@ -14,8 +14,12 @@ import (
 	"github.com/tonistiigi/fsutil/types"
 )
 
+// maxSymlinkHops bounds the number of symlinks followed while resolving one
+// path, like the kernel does (ELOOP).
+const maxSymlinkHops = 40
+
 func FollowLinks(fs FS, paths []string) ([]string, error) {
-	r := &symlinkResolver{fs: fs, resolved: map[string]struct{}{}}
+	r := &symlinkResolver{fs: fs, resolved: map[string]struct{}{}, expanded: map[string]struct{}{}}
 	for _, p := range paths {
 		if err := r.append(p); err != nil {
 			return nil, err
@@ -32,6 +36,11 @@ func FollowLinks(fs FS, paths []string) ([]string, error) {
 type symlinkResolver struct {
 	fs       FS
 	resolved map[string]struct{}
+	// expanded records which (symlink, remaining path) pairs were already
+	// followed; the same link has to be followed again when it is reached
+	// with a different remainder
+	expanded map[string]struct{}
+	hops     int
 }
 
 func (r *symlinkResolver) append(p string) error {
@@ -56,14 +65,24 @@ func (r *symlinkResolver) append(p string) error {
 			p = parts[1]
 		}
 
-		if p == "" || targets != nil {
+		if p == "" && targets == nil {
 			if _, ok := r.resolved[current]; ok {
 				return nil
 			}
 		}
 
 		if targets != nil {
+			key := current + "\x00" + p
+			if _, ok := r.expanded[key]; ok {
+				return nil
+			}
+			r.expanded[key] = struct{}{}
 			r.resolved[current] = struct{}{}
+			if r.hops >= maxSymlinkHops {
+				return nil
+			}
+			r.hops++
+			defer func() { r.hops-- }()
 			for _, target := range targets {
 				if err := r.append(filepath.Join(target, p)); err != nil {
 					return err
